@@ -234,6 +234,47 @@ def check(ctx):
             ctx.check(t in handled, "tags/encoder-subset-of-decoder", f"{base}Banana.dataReceived | branch for {t}", f"_encode writes the type byte {t} but dataReceived has no branch for it")
         ctx.floor("tags/encoder-subset-of-decoder", len(written), 6)
 
+    # ---- senders: a value that is refused leaves nothing on the wire
+    with sect(ctx, 'senders: refused values leave nothing on the wire'):
+        cls_b = ctx.cls(BANANA, "Banana")
+        senders = [m for m in cls_b.body if isinstance(m, ast.FunctionDef) and m.name != f_e.name
+                   and any(isinstance(c, ast.Call) and call_name(c) == "self." + f_e.name for c in ast.walk(m))]
+        ctx.floor("encode/refused-atomically", len(senders), 1)
+        for m in senders:
+            mq = base + "Banana." + m.name
+            params = [a.arg for a in m.args.args if a.arg != "self"]
+            if len(params) != 1:
+                raise AnalysisError(f"{mq}: expected (self, obj)")
+
+            def send(obj, dialect=b"none"):
+                writes = []
+                e = dict(lim)
+                e.update({"self.currentDialect": dialect, "self.outgoingSymbols": dict(out_v)})
+                enc = interp(f_e, funcs, e)
+                e["self._encode"] = lambda o, w: enc(_Self(), o, w)
+                me = dict(e)
+                me.update({"self": _Self(), params[0]: obj, "self.transport.write": writes.append,
+                           "self.transport.writeSequence": lambda seq: writes.extend(seq), "self._encode": lambda o, w: enc(_Self(), o, w)})
+                try:
+                    r = eval_block(m.body, me, funcs=funcs)
+                    err = _exc_name(r.raised)
+                except BlockRaised as ex:
+                    inner = str(ex.exc)
+                    err = _exc_name(inner) if isinstance(ex.exc, RuntimeError) and inner.startswith("raise ") else type(ex.exc).__name__
+                return b"".join(bytes(w) for w in writes), err
+            good = [1, [b"ab", -2.5], b""]
+            wire, err = send(good)
+            want = b"\x03" + tags["LIST"] + b"\x01" + tags["INT"] + b"\x02" + tags["LIST"] + b"\x02" + tags["STRING"] + b"ab" + tags["FLOAT"] + struct.pack("!d", -2.5) + b"\x00" + tags["STRING"]
+            ctx.check(err is None and wire == want, "encode/refused-atomically", mq + " | an encodable value is written completely",
+                      f"{m.name}({good!r}) writes {(wire if err is None else err)!r}; the wire format is {want!r}")
+            for label, obj in (("out-of-range integer after other elements", [1, [b"ok"], 2 ** (7 * L)]), ("oversized byte string after other elements", [b"a", [b"x" * (size_limit + 1)]]),
+                               ("unsupported value inside a nested list", [[], [1, None]]), ("unsupported value as last element", [b"first", 2, object])):
+                wire, err = send(obj)
+                ctx.check(err == "BananaError" and wire == b"", "encode/refused-atomically", f"{mq} | {label}",
+                          f"{m.name}() of a structure with an {label.split(' after')[0].split(' inside')[0].split(' as')[0]} " +
+                          (f"raises {err}" if err else "does not raise") + f" after {len(wire)} bytes were already written to the transport"
+                          f" ({wire[:16]!r}...): the peer is left inside an unfinished list and swallows every later expression; a refused value must be refused before anything is sent")
+
     # ---- decoder: one iteration of the scanning loop ------------------------------------------------------------------------------
     with sect(ctx, 'decoder: one iteration of the scanning loop'):
         q = base + "Banana.dataReceived"
@@ -247,12 +288,17 @@ def check(ctx):
         cenv = class_env([cls], env0, funcs)           # class-level constants (vocabularies, precompiled structs ...) as self.<name>
         f_gi = ctx.func(BANANA, "Banana.gotItem")
 
+        def instance_attrs(limit):
+            """Instance attributes installed by setPrefixLimit(limit) (prefixLimit, _largestLongInt, ...), bound as self.<name>."""
+            return {k: v for k, v in limits(limit).items() if k.startswith("self.")}
+
         def step(buffer, stack=None, dialect=b"none", limit=L):
             stack = [(n, list(items)) for n, items in (stack or [])]
             delivered = []
             ge = {"self.listStack": stack, "self.callExpressionReceived": delivered.append}
             gi = interp(f_gi, funcs, ge)
             e = dict(cenv)
+            e.update(instance_attrs(limit))
             e.update({"self": _Self(), "self.buffer": b"", "self.listStack": stack, "self.gotItem": lambda item: gi(_Self(), item), "self.prefixLimit": limit,
                       "self.incomingVocabulary": dict(in_v), "self.currentDialect": dialect, chunk_p: buffer})
             try:
@@ -340,11 +386,12 @@ def check(ctx):
                 return ref_b128(-x) + (tags["NEG"] if x >= -(2**31) else tags["LONGNEG"])
             return ref_b128(x) + (tags["INT"] if x < 2**31 else tags["LONGINT"])
 
-        def feed(chunks):
+        def feed(chunks, limit=L):
             stack, delivered = [], []
             gi = interp(f_gi, funcs, {"self.listStack": stack, "self.callExpressionReceived": delivered.append})
             env = dict(cenv)
-            env.update({"self": _Self(), "self.buffer": b"", "self.listStack": stack, "self.gotItem": lambda item: gi(_Self(), item), "self.prefixLimit": L,
+            env.update(instance_attrs(limit))
+            env.update({"self": _Self(), "self.buffer": b"", "self.listStack": stack, "self.gotItem": lambda item: gi(_Self(), item), "self.prefixLimit": limit,
                         "self.incomingVocabulary": dict(in_v), "self.currentDialect": b"none"})
             for c in chunks:
                 env[chunk_p] = c
@@ -371,6 +418,15 @@ def check(ctx):
                 break
         ctx.check(bad is None, "decode/segmentation-independent", q + " | reference streams, every 2-way split and byte by byte",
                   bad and f"the reference encoding of {bad[0]!r} delivered in chunks of sizes {bad[1]}... yields {bad[2]!r} instead of the expression itself", detail=f"{n} segmentations")
+        # oversized prefixes whose VALUE is small (padded with high-order zero digits): the limit is on the number of digits
+        for lim_ in (3, L):
+            padded = b"\x01" + b"\x00" * lim_
+            for tname, tb in sorted(tags.items()):
+                for how, chunks in (("one chunk", (padded + tb + b"\x00" * 8,)), ("type byte in the next chunk", (padded, tb + b"\x00" * 8)), ("digit by digit", tuple(padded[i:i + 1] for i in range(len(padded))) + (tb,))):
+                    got = feed(chunks, limit=lim_)
+                    ctx.check(isinstance(got, str) and "BananaError" in got, "decode/prefix-digit-limit", f"{q} | zero-padded prefix of limit+1 digits before {tname}, {how}",
+                              f"a prefix of {lim_ + 1} digits (value 1, padded with zero digits) followed by {tname} delivered as {how} gives {got!r}: prefixes longer than "
+                              f"prefixLimit={lim_} digits must be refused with BananaError whatever value they denote")
 
 
 _NEGD = "            elif typebyte == NEG:\n                buffer = rest\n                num = -b1282int(num)\n"
@@ -397,6 +453,9 @@ MUTANTS = [
     Mutant("float-via-little-endian-struct", BANANA, '                    gotItem(struct.unpack("!d", rest[:8])[0])\n', "                    gotItem(self._double.unpack(rest[:8])[0])\n",
            more=[(BANANA, "    prefixLimit = None\n    sizeLimit = SIZE_LIMIT\n", "    prefixLimit = None\n    sizeLimit = SIZE_LIMIT\n    _double = struct.Struct(\"<d\")\n")], expect_rule="decode/"),
     Mutant("saved-buffer-not-cleared", BANANA, '        self.buffer = b""\n\n    def expressionReceived', '        pass\n\n    def expressionReceived', expect_rule="decode/segmentation-independent"),
+    Mutant("prefix-limit-on-decoded-value", BANANA, "            if len(num) > self.prefixLimit:\n", "            if b1282int(num) > self._largestLongInt:\n", expect_rule="decode/"),
+    Mutant("encode-straight-to-transport", BANANA, "        encodeStream = BytesIO()\n        self._encode(obj, encodeStream.write)\n        value = encodeStream.getvalue()\n        self.transport.write(value)\n",
+           "        self._encode(obj, self.transport.write)\n", expect_rule="encode/refused-atomically"),
     Mutant("negative-int-boundary-sign", BANANA, "            elif obj < 0:\n                int2b128(-obj, write)\n                write(NEG)\n", "            elif obj < 0:\n                int2b128(-obj, write)\n                write(INT)\n",
            expect_rule="encode/int-forms"),
 ]
@@ -410,5 +469,8 @@ SILENT = [
     Silent("working-buffer-renamed", BANANA, "        buffer = self.buffer + chunk\n", "        buffer = b\"\".join((self.buffer, chunk))\n"),
     Silent("vocabulary-lookup-by-get", BANANA, '            if self.currentDialect == b"pb" and obj in self.outgoingSymbols:\n                symbolID = self.outgoingSymbols[obj]\n                int2b128(symbolID, write)\n                write(VOCAB)\n            else:\n',
            '            symbolID = self.outgoingSymbols.get(obj) if self.currentDialect == b"pb" else None\n            if symbolID is not None:\n                int2b128(symbolID, write)\n                write(VOCAB)\n            else:\n'),
+    Silent("prefix-limit-by-position", BANANA, "            if len(num) > self.prefixLimit:\n", "            if pos > self.prefixLimit:\n"),
+    Silent("encode-into-list-buffer", BANANA, "        encodeStream = BytesIO()\n        self._encode(obj, encodeStream.write)\n        value = encodeStream.getvalue()\n        self.transport.write(value)\n",
+           "        parts = []\n        self._encode(obj, parts.append)\n        self.transport.write(b\"\".join(parts))\n"),
     Silent("b1282int-shift-form", BANANA, "        i += n * e\n        e <<= 7\n", "        i = i + (n * e)\n        e = e * 128\n"),
 ]
